@@ -886,6 +886,8 @@ func TestGen(t *testing.T) {
 		return
 	}
 	cl := ckit.NewCluster(t, ckit.Options{})
+	d := &driver{t: t, cl: cl, r: r, out: out, budget: budget}
+	d.corpus()
 	hist := 0
 	for out.N < budget {
 		hist++
@@ -900,55 +902,109 @@ func TestGen(t *testing.T) {
 		for k := 0; k < nops && out.N < budget; k++ {
 			pre := w.preSnap()
 			o := g.nextOp(pre, only)
-			cpBefore := cl.Checkpoint()
-			base := fmt.Sprintf("s%d-h%d-o%d", seed, hist, k)
-			// fault-free run
-			res := w.exec(o, ckit.Plan{})
-			args, _ := w.analyse(o, &res, pre, nil)
-			post := w.snap()
-			setCap(o, args, post)
-			out.Emit(&kase{ID: base, Op: o.s("op"), Args: args, Req: o, Pre: pre, Post: post, Msgs: nz(res.msgs), Ret: res.ret,
-				Trace: trOf(res.trace), Impl: map[string]any{"diffs": post.Diffs}, Setup: setup})
-			cpAfter := cl.Checkpoint()
-			nextAfter := w.next
-			addrs := ckit.Addresses(res.trace)
-			if !thorough {
-				hx.Shuffle(r, addrs)
-				if len(addrs) > 3 {
-					addrs = addrs[:3]
-				}
-			}
-			keepFaulty := r.Chance(25)
-			for ai, a := range addrs {
-				if out.N >= budget {
-					break
-				}
-				cl.Restore(cpBefore)
-				w.next = pre.Next
-				a := a
-				fres := w.exec(o, ckit.Plan{Fail: []ckit.Addr{a}})
-				fired := false
-				for _, e := range fres.trace {
-					fired = fired || e.Injected
-				}
-				fargs, mf := w.analyse(o, &fres, pre, &a)
-				fpost := w.snap()
-				setCap(o, fargs, post)
-				out.Emit(&kase{ID: fmt.Sprintf("%s-f%d", base, ai), Op: o.s("op"), Args: fargs, Req: o, Fault: mf, IFlt: &a, Fired: fired,
-					Pre: pre, Post: fpost, Msgs: nz(fres.msgs), Ret: fres.ret, Trace: trOf(fres.trace), Impl: map[string]any{"diffs": fpost.Diffs}, Setup: setup})
-				if keepFaulty && ai == len(addrs)-1 {
-					cpAfter = nil // continue the history from this faulty post-state
-				}
-			}
-			if cpAfter != nil {
-				cl.Restore(cpAfter)
-				if w.next < nextAfter {
-					w.next = nextAfter
-				}
-			}
+			d.step(w, o, pre, fmt.Sprintf("s%d-h%d-o%d", seed, hist, k), setup, thorough, r.Chance(25))
 		}
 	}
 	t.Logf("histories=%d cases=%d", hist, out.N)
+}
+
+type driver struct {
+	t      *testing.T
+	cl     *ckit.Cluster
+	r      *hx.Rng
+	out    *hx.Out
+	budget int
+}
+
+// step runs one operation fault-free and then, from the restored pre-state, once per fault address
+// of the fault-free trace (all of them, or 3 sampled ones); the history continues from the
+// fault-free post-state, or (keepFaulty) from the last faulty one.
+func (d *driver) step(w *world, o op, pre snapJ, base string, setup []map[string]any, all, keepFaulty bool) {
+	cl, out, r := d.cl, d.out, d.r
+	cpBefore := cl.Checkpoint()
+	res := w.exec(o, ckit.Plan{})
+	args, _ := w.analyse(o, &res, pre, nil)
+	post := w.snap()
+	setCap(o, args, post)
+	out.Emit(&kase{ID: base, Op: o.s("op"), Args: args, Req: o, Pre: pre, Post: post, Msgs: nz(res.msgs), Ret: res.ret,
+		Trace: trOf(res.trace), Impl: map[string]any{"diffs": post.Diffs}, Setup: setup})
+	cpAfter := cl.Checkpoint()
+	nextAfter := w.next
+	addrs := ckit.Addresses(res.trace)
+	if !all {
+		hx.Shuffle(r, addrs)
+		if len(addrs) > 3 {
+			addrs = addrs[:3]
+		}
+	}
+	for ai, a := range addrs {
+		if out.N >= d.budget && !strings.HasPrefix(base, "corpus") {
+			break
+		}
+		cl.Restore(cpBefore)
+		w.next = pre.Next
+		a := a
+		fres := w.exec(o, ckit.Plan{Fail: []ckit.Addr{a}})
+		fired := false
+		for _, e := range fres.trace {
+			fired = fired || e.Injected
+		}
+		fargs, mf := w.analyse(o, &fres, pre, &a)
+		fpost := w.snap()
+		setCap(o, fargs, post)
+		out.Emit(&kase{ID: fmt.Sprintf("%s-f%d", base, ai), Op: o.s("op"), Args: fargs, Req: o, Fault: mf, IFlt: &a, Fired: fired,
+			Pre: pre, Post: fpost, Msgs: nz(fres.msgs), Ret: fres.ret, Trace: trOf(fres.trace), Impl: map[string]any{"diffs": fpost.Diffs}, Setup: setup})
+		if keepFaulty && ai == len(addrs)-1 {
+			cpAfter = nil // continue the history from this faulty post-state
+		}
+	}
+	if cpAfter != nil {
+		cl.Restore(cpAfter)
+		if w.next < nextAfter {
+			w.next = nextAfter
+		}
+	}
+}
+
+// corpus: fixed histories run first on every invocation, every fault address enumerated — the
+// places where defects were found (D11, D12, D13, D16c, D25) and the seeded changes that once escaped.
+func (d *driver) corpus() {
+	cl := d.cl
+	mk := func(nodes ...ckit.NodeSpec) (*world, []map[string]any) {
+		cl.Wipe()
+		w := &world{t: d.t, cl: cl, ids: map[string]int{}, next: 1}
+		setup := []map[string]any{{"pod": "p0"}}
+		cl.AddPod("p0")
+		for _, n := range nodes {
+			cl.AddNode(n)
+			setup = append(setup, map[string]any{"node": n})
+		}
+		return w, setup
+	}
+	run := func(w *world, setup []map[string]any, name string, all bool, ops ...op) {
+		for i, o := range ops {
+			d.step(w, o, w.preSnap(), fmt.Sprintf("corpus-%s-o%d", name, i), setup, all, false)
+		}
+	}
+	// A: memory limit above the request, node filled to the brim, growing realloc must be refused
+	w, setup := mk(ckit.NodeSpec{Name: "n0", Pod: "p0", CPU: 4, Memory: 1000 * mib})
+	run(w, setup, "limit", false,
+		op{"op": "create", "pod": "p0", "app": "app0", "count": 1, "strategy": "AUTO", "mem": 300 * mib, "mem_limit": 600 * mib},
+		op{"op": "create", "pod": "p0", "app": "app1", "count": 1, "strategy": "AUTO", "mem": 600 * mib},
+		op{"op": "realloc", "id": 1, "mem": 300 * mib, "mem_limit": 300 * mib},
+		op{"op": "realloc", "id": 1, "mem": 100 * mib},
+		op{"op": "realloc", "id": 1, "mem": 64 * mib})
+	// B: every operation kind with every fault address
+	w, setup = mk(ckit.NodeSpec{Name: "n0", Pod: "p0", CPU: 4, Memory: 2048 * mib}, ckit.NodeSpec{Name: "n1", Pod: "p0", CPU: 2, Memory: 1024 * mib})
+	run(w, setup, "all", true,
+		op{"op": "create", "pod": "p0", "app": "app0", "count": 3, "strategy": "AUTO", "mem": 128 * mib, "cpu_milli": 1000, "bind": true},
+		op{"op": "realloc", "id": 1, "mem": 64 * mib},
+		op{"op": "replace", "id": 2, "app": "app0"},
+		op{"op": "setnode", "node": "n1", "mem": 256 * mib, "delta": true},
+		op{"op": "remove", "ids": []int{1}},
+		op{"op": "dissociate", "ids": []int{3}},
+		op{"op": "addnode", "node": "x1", "pod": "p0", "cpu": 2, "mem": 512 * mib},
+		op{"op": "removenode", "node": "x1"})
 }
 
 func nz(m []msgJ) []msgJ {
